@@ -147,8 +147,18 @@ pub enum Alt {
     // C04
     ItemValue(usize, usize), ItemIdentifier(usize, usize), ItemRandom(usize, usize), ItemDigestId(usize, usize), ItemMove, ItemInject, ItemDuplicateOtherNs,
     NamespaceRename,
+    /// a forged item reusing the digestID of the authentic item at (ns, item), placed before (true) or after it
+    ItemShadow(bool, usize, usize),
+    /// the authentic item at (ns, item) presented twice
+    ItemTwice(usize, usize),
     // C05
     DevSigFlip(usize, u8), DevSigOtherKey, DevNsChange, DevMac, DevDocTypeOther, DevProtectedAlg,
+    /// deviceSignature carrying an ATTACHED payload, signed by the issued device key over that payload:
+    /// 0 = this session's DeviceAuthenticationBytes, 1 = the DeviceAuthenticationBytes of another session, 2 = arbitrary bytes
+    DevAttached(u8),
+    // C03: a document signer certificate NOT signed by the IACA but naming it (issuer name, authority key identifier,
+    // and with `true` also the genuine certificate's serial number and subject), with the MSO signed by the forger's key
+    X5Forged(bool),
 }
 
 pub fn apply(alt: &Alt, sc: &Scene, pt: &mut Value, rng: &mut StdRng) {
@@ -206,6 +216,32 @@ pub fn apply(alt: &Alt, sc: &Scene, pt: &mut Value, rng: &mut StdRng) {
             let nss = namespaces_mut(pt);
             if let Value::Array(a) = &mut nss[0].1 { a.push(Value::Tag(24, Box::new(Value::Bytes(to_bytes(&item))))); }
         }
+        Alt::ItemShadow(before, n, i) => {
+            let nss = namespaces_mut(pt);
+            let nlen = nss.len();
+            if let Value::Array(items) = &mut nss[*n % nlen].1 {
+                let pos = *i % items.len();
+                let mut forged = items[pos].clone();
+                if let Value::Tag(24, b) = &mut forged {
+                    if let Value::Bytes(inner) = b.as_mut() {
+                        if let Some(Value::Map(mut m)) = from_bytes(inner) {
+                            for (k, v) in m.iter_mut() { if k.as_text() == Some("elementValue") { *v = Value::Text("shadow".into()); } }
+                            *inner = to_bytes(&Value::Map(m));
+                        }
+                    }
+                }
+                items.insert(if *before { pos } else { pos + 1 }, forged);
+            }
+        }
+        Alt::ItemTwice(n, i) => {
+            let nss = namespaces_mut(pt);
+            let nlen = nss.len();
+            if let Value::Array(items) = &mut nss[*n % nlen].1 {
+                let pos = *i % items.len();
+                let it = items[pos].clone();
+                items.push(it);
+            }
+        }
         Alt::NamespaceRename => {
             let nss = namespaces_mut(pt);
             if let Some(i) = nss.iter().position(|(k, _)| k.as_text() == Some(NS_AAMVA)) { nss[i].0 = Value::Text("org.example.other".into()); }
@@ -231,6 +267,39 @@ pub fn apply(alt: &Alt, sc: &Scene, pt: &mut Value, rng: &mut StdRng) {
             // the holder signs DeviceAuthentication for another docType but presents it as mDL
             let key = sc.device_key.clone();
             resign_device(sc, pt, &key, "org.example.other");
+        }
+        Alt::DevAttached(kind) => {
+            let dns = {
+                let d = doc_mut(pt);
+                match map_get_mut(map_get_mut(d, "deviceSigned").unwrap(), "nameSpaces") { Some(Value::Tag(24, b)) => b.as_bytes().cloned().unwrap_or_default(), _ => vec![] }
+            };
+            let (de, erk): (Vec<u8>, Vec<u8>) = match kind {
+                0 => (sc.de_bytes.clone(), sc.erk_bytes.clone()),
+                _ => { let mut d = sc.de_bytes.clone(); let l = d.len(); d[l - 1] ^= 1; (d, sc.erk_bytes.clone()) }
+            };
+            let payload = if *kind == 2 { (0..40).map(|_| rng.gen()).collect::<Vec<u8>>() } else {
+                let da = arr(vec![text("DeviceAuthentication"),
+                    arr(vec![Value::Tag(24, Box::new(bytes(&de))), Value::Tag(24, Box::new(bytes(&erk))), Value::Null]),
+                    text(MDL), Value::Tag(24, Box::new(bytes(&dns)))]);
+                to_bytes(&Value::Tag(24, Box::new(bytes(&to_bytes(&da)))))
+            };
+            let prot = device_sig_mut(pt)[0].as_bytes().cloned().unwrap_or_default();
+            let tbs = to_bytes(&arr(vec![text("Signature1"), bytes(&prot), bytes(&[]), bytes(&payload)]));
+            let s: Signature = sc.device_key.sign(&tbs);
+            device_sig_mut(pt)[2] = bytes(&payload);
+            device_sig_mut(pt)[3] = bytes(&s.to_vec());
+        }
+        Alt::X5Forged(same_serial) => {
+            let forger = SigningKey::random(rng);
+            let (subject, serial) = if *same_serial { ("CN=Test DS,C=US", 2) } else { ("CN=Forged DS,C=US", 99) };
+            let c = pki::forged_leaf(&forger, &sc.pki.iaca_key, "CN=Test IACA,C=US", subject, pki::EKU_DS, serial);
+            issuer_auth_mut(pt)[1] = Value::Map(vec![(Value::Integer(33.into()), bytes(&c.to_der().unwrap()))]);
+            let ia = issuer_auth_mut(pt);
+            let prot = ia[0].as_bytes().cloned().unwrap_or_default();
+            let payload = ia[2].as_bytes().cloned().unwrap_or_default();
+            let tbs = to_bytes(&arr(vec![text("Signature1"), bytes(&prot), bytes(&[]), bytes(&payload)]));
+            let s: Signature = forger.sign(&tbs);
+            ia[3] = bytes(&s.to_vec());
         }
         Alt::DevProtectedAlg => {
             device_sig_mut(pt)[0] = bytes(&to_bytes(&Value::Map(vec![(Value::Integer(1.into()), Value::Integer((-35).into()))])));
@@ -263,6 +332,53 @@ pub fn reader_with_registry(rdr: &reader::SessionManager, reg: &TrustAnchorRegis
     let rv = Value::serialized(reg).unwrap();
     if let Some(slot) = map_get_mut(&mut v, "trust_anchor_registry") { *slot = rv; }
     reader::SessionManager::parse(base64::encode(to_bytes(&v))).expect("reader with other registry")
+}
+
+/// the same reader after it has processed the scene's authentic response and sent a follow-up request:
+/// a later response of the SAME session is then delivered to it
+pub fn warmed_reader(sc: &Scene, rdr: &reader::SessionManager) -> Option<reader::SessionManager> {
+    let mut rdr = rdr.clone();
+    let rk = rdr_view(&rdr);
+    let msg = session_data(Some(&aes_encrypt(&rk.sk_device, &iso_iv(true, rk.device_ctr as u32 + 1), &to_bytes(&sc.plaintext))), None);
+    let first = catch(|| rdr.handle_response(&msg)).ok()?;
+    if !matches!(first.issuer_authentication, isomdl::presentation::authentication::AuthenticationStatus::Valid) { return None; }
+    let again = isomdl::definitions::helpers::NonEmptyMap::new(NS.to_string(), isomdl::definitions::helpers::NonEmptyMap::new("family_name".to_string(), false));
+    rdr.new_request(again).ok()?;
+    Some(rdr)
+}
+
+/// an authentic issuer-signed part of ANOTHER document type (with its own device key) presented under the mDL
+/// docType; the device signature is computed by that device key over DeviceAuthentication for `sign_doc_type`
+pub fn other_document_as_mdl(sc: &Scene, rng: &mut StdRng, sign_doc_type: &str) -> Value {
+    let dk2 = SigningKey::random(rng);
+    let alg = [DigestAlgorithm::SHA256, DigestAlgorithm::SHA384, DigestAlgorithm::SHA512][rng.gen_range(0..3)];
+    let other = issue_with_key(&sc.pki, "org.example.other", new_namespaces(rng), alg, false, cose_key_of(&dk2));
+    let mut pt = sc.plaintext.clone();
+    let isg = Value::Map(vec![
+        (Value::Text("nameSpaces".into()), Value::Map(other.namespaces.iter().map(|(ns, items)| (Value::Text(ns.clone()), Value::Array(items.iter().map(|it| Value::Tag(24, Box::new(Value::Bytes(it.inner_bytes.clone())))).collect()))).collect())),
+        (Value::Text("issuerAuth".into()), from_bytes(&isomdl::cbor::to_vec(&other.issuer_auth).unwrap()).unwrap()),
+    ]);
+    if let Some(Value::Array(docs)) = map_get_mut(&mut pt, "documents") {
+        if let Some(slot) = map_get_mut(&mut docs[0], "issuerSigned") { *slot = isg; }
+    }
+    resign_device(sc, &mut pt, &dk2, sign_doc_type);
+    pt
+}
+
+/// necessary condition for any valid chain, checked with x509-cert and p256 only: some IACA anchor of the registry
+/// carries the leaf's issuer name and its key verifies the leaf's signature
+fn leaf_signed_by_an_anchor(leaf: &x509_cert::Certificate, reg: &TrustAnchorRegistry) -> bool {
+    use p256::pkcs8::DecodePublicKey;
+    let Ok(tbs) = leaf.tbs_certificate.to_der() else { return false };
+    let Some(sig) = leaf.signature.as_bytes().and_then(|b| Signature::from_der(b).ok()) else { return false };
+    reg.anchors.iter().any(|a| {
+        a.purpose == TrustPurpose::Iaca
+            && a.certificate.tbs_certificate.subject == leaf.tbs_certificate.issuer
+            && a.certificate.tbs_certificate.subject_public_key_info.to_der().ok()
+                .and_then(|d| p256::PublicKey::from_public_key_der(&d).ok())
+                .map(|pk| VerifyingKey::from(&pk).verify(&tbs, &sig).is_ok())
+                .unwrap_or(false)
+    })
 }
 
 fn opt(v: Option<&Vec<u8>>) -> Value { match v { Some(b) => bytes(b), None => Value::Null } }
@@ -323,7 +439,9 @@ pub fn deliver(ctx: &mut Ctx, label: &str, spec: &str, sc: &Scene, rdr: &reader:
     let x5code = match (&x5v, &certs) { (None, _) => 0u64, (Some(_), None) => 1, (Some(_), Some(_)) => 2 };
     let (chain_valid, leaf_vk): (bool, Option<VerifyingKey>) = match (&x5v, &certs) {
         (Some(v), Some(cs)) => {
-            let chain_valid = X5Chain::from_cbor(v.clone()).map(|c| ValidationRuleset::Mdl.validate(&c, reg).success()).unwrap_or(false);
+            // the chain verdict is C12's subject; here it is an oracle, cross-checked by an independent necessary condition
+            let chain_valid = X5Chain::from_cbor(v.clone()).map(|c| ValidationRuleset::Mdl.validate(&c, reg).success()).unwrap_or(false)
+                && leaf_signed_by_an_anchor(&cs[0], reg);
             let spki = cs[0].tbs_certificate.subject_public_key_info.to_der().ok();
             let vk = spki.and_then(|d| { use p256::pkcs8::DecodePublicKey; p256::PublicKey::from_public_key_der(&d).ok() }).map(|pk| VerifyingKey::from(&pk));
             (chain_valid, vk)
@@ -383,7 +501,8 @@ pub fn weird_device_keys() -> Vec<(&'static str, CoseKey)> {
 
 pub fn c03_alts(rng: &mut StdRng, thorough: bool) -> Vec<Alt> {
     let mut v = vec![Alt::None, Alt::SigTruncate, Alt::ProtectedAlg(-35), Alt::ProtectedAlg(-70000), Alt::ProtectedAlgText, Alt::ProtectedEmpty, Alt::ProtectedKid,
-        Alt::X5Remove, Alt::X5Unrelated, Alt::X5SelfSigned, Alt::X5Garbage, Alt::X5Array, Alt::X5RootAsLeaf, Alt::X5EmptyArray, Alt::X5WrongType];
+        Alt::X5Remove, Alt::X5Unrelated, Alt::X5SelfSigned, Alt::X5Garbage, Alt::X5Array, Alt::X5RootAsLeaf, Alt::X5EmptyArray, Alt::X5WrongType,
+        Alt::X5Forged(false), Alt::X5Forged(true)];
     let n = if thorough { 400 } else { 12 };
     for _ in 0..n { v.push(Alt::PayloadFlip(rng.gen_range(0..100_000), rng.gen())); v.push(Alt::SigFlip(rng.gen_range(0..64), rng.gen())); }
     v
@@ -393,12 +512,14 @@ pub fn c04_alts(rng: &mut StdRng, thorough: bool) -> Vec<Alt> {
     let n = if thorough { 40 } else { 4 };
     for _ in 0..n {
         let (a, b) = (rng.gen_range(0..2), rng.gen_range(0..6));
-        v.extend([Alt::ItemValue(a, b), Alt::ItemIdentifier(a, b), Alt::ItemRandom(a, b), Alt::ItemDigestId(a, b)]);
+        v.extend([Alt::ItemValue(a, b), Alt::ItemIdentifier(a, b), Alt::ItemRandom(a, b), Alt::ItemDigestId(a, b),
+                  Alt::ItemShadow(true, a, b), Alt::ItemShadow(false, a, b), Alt::ItemTwice(a, b)]);
     }
     v
 }
 pub fn c05_alts(rng: &mut StdRng, thorough: bool) -> Vec<Alt> {
-    let mut v = vec![Alt::None, Alt::DevSigOtherKey, Alt::DevNsChange, Alt::DevMac, Alt::DevDocTypeOther, Alt::DevProtectedAlg];
+    let mut v = vec![Alt::None, Alt::DevSigOtherKey, Alt::DevNsChange, Alt::DevMac, Alt::DevDocTypeOther, Alt::DevProtectedAlg,
+        Alt::DevAttached(0), Alt::DevAttached(1), Alt::DevAttached(2)];
     let n = if thorough { 200 } else { 10 };
     for _ in 0..n { v.push(Alt::DevSigFlip(rng.gen_range(0..64), rng.gen())); }
     v
